@@ -12,6 +12,7 @@ B5 direct_from_buffer: fixed arrays reject short buffers with ValueError, open a
 B6 every Py_buffer field a consumer of _fetch_as_buffer reads is written on every
    successful path of that producer.
 """
+from .. import AnalysisError
 from ..cast import cx, rules, absint
 from ..cast.absint import Con
 from ..cast.cfg import cfg_of, stmt_text
@@ -298,6 +299,34 @@ def b6(run, tu):
     run.need(n >= 5, 'consumer field reads found: %d' % n)
 
 
+def b7(run, tu):
+    """a cdata source reports its size in BYTES (the slice-assignment length test and memmove compare it with byte counts): decided by
+    constant propagation through _fetch_as_buffer for a fixed array, an open array and a pointer"""
+    from ..cast import absint
+    from ..cast.absint import Con
+    prod = '_fetch_as_buffer'
+    g = cfg_of(tu, prod)
+    F = rules.macro_flags(tu, 'CT_')
+    rets = [n for n in g.nodes if n.kind == 'return' and rules.return_value(n) == '0']
+    run.need(len(rets) == 1, '%s: the successful return of the cdata path not found' % prod)
+    for what, flags, ct_size, nitems, isz, want in (('int[3] (fixed length)', F['CT_ARRAY'], 12, 3, 4, 12), ('int[] holding 3 items (open length)', F['CT_ARRAY'], -1, 3, 4, 12),
+                                                    ('char[] holding 5 items', F['CT_ARRAY'], -1, 5, 1, 5), ('double[2]', F['CT_ARRAY'], 16, 2, 8, 16),
+                                                    ('int * (a pointer has no length)', F['CT_POINTER'], 8, None, 4, -1)):
+        env = {'ct->ct_flags': Con(flags, 32, True), 'ct->ct_size': Con(ct_size, 64, True), 'ct->ct_itemdescr->ct_size': Con(isz, 64, True)}
+        hooks = {'get_array_length': lambda a, e, n_=nitems: Con(n_ if n_ is not None else -1, 64, True)}
+        it = absint.Interp(g, env, hooks, const_vars=set(env)).run()
+        st = it.in_state.get(rets[0].id) or {}
+        v = st.get('view->len')
+        got = v.v if isinstance(v, Con) else None
+        if got is None:
+            written = any(cx.lhs_text(l) == 'view->len' for l, _r, _o, _x in cx.assignments(tu.func(prod)))
+            if written:
+                raise AnalysisError('%s: view->len not decided by constant propagation for %s' % (prod, what))
+            got = 'nothing (the field is never written on this path)'
+        run.ob('B7/cdata-source-length-is-in-bytes', prod, what, got == want, tu.where(rets[0].ast),
+               'view->len becomes %s, the object holds %s bytes: buf[a:b] = <this cdata> compares it with the slice length in bytes' % (got, want if want >= 0 else 'an unknown number of'))
+
+
 def check(run):
     run.explanation = (
         'CFG dominance for the range tests of item access; constant propagation through the three clamps of the slice '
@@ -314,10 +343,12 @@ def check(run):
     b4(run, tu)
     b5(run, tu)
     b6(run, tu)
+    b7(run, tu)
     run.min_instances('B1', 6)
     run.min_instances('B2', 7)
     run.min_instances('B4', 6)
     run.min_instances('B5', 8)
     run.min_instances('B6', 5)
+    run.min_instances('B7', 5)
     run.assume('PyBuffer_Release reads view->obj and is a no-op when it is NULL (CPython); PyObject_GetBuffer fills every field on success')
     run.assume('byte-for-byte equality with a bytearray model is behavioural and not decided')
